@@ -1,5 +1,5 @@
 (* C14: theorems about the MERCURIUS / TRACE bookkeeping model (Hybrid.v). *)
-From Coq Require Import List ZArith NArith Bool Arith Lia ZifyBool.
+From Coq Require Import List ZArith NArith Bool Arith Lia ZifyBool Sorting.Sorted.
 From RV Require Import C14.Model C14.Lists C14.ProofsA C14.Hybrid.
 Import ListNotations.
 
@@ -54,79 +54,143 @@ Qed.
 
 Definition zd := 0%Z.
 
-Lemma emap_after : forall cnt i m e ob index m' e' ob', 1 <= i -> i + cnt <= length m ->
-  (forall k, i <= k < i + cnt -> nth k m zd <> index) ->
-  emap_loop cnt i index m true e ob = (m', e', ob') ->
-  e' = e /\ ob' = ob /\ length m' = length m /\
-  forall k, nth k m' zd = if (i - 1 <=? k) && (k <? i - 1 + cnt) then (nth (S k) m zd - 1)%Z else nth k m zd.
-Proof.
-  induction cnt; intros i m e ob index m' e' ob' Hi Hl Hne H; cbn [emap_loop] in H.
-  - inversion H; subst. repeat split; auto. intros k. destruct ((i - 1 <=? k) && (k <? i - 1 + 0)) eqn:E; auto; lia.
-  - change 0%Z with zd in H. rewrite upd_length in H. rewrite !chk_in in H by lia.
-    rewrite (nth_upd_neq _ m (i - 1) i) in H by lia.
-    destruct (nth i m zd =? index)%Z eqn:E; [exfalso; apply (Hne i); lia|].
-    apply IHcnt in H; try (rewrite upd_length); try lia.
-    2:{ intros k Hk. rewrite nth_upd_neq by lia. apply Hne. lia. }
-    destruct H as (-> & H2 & H3 & H4). rewrite upd_length in H3. repeat split; auto; try lia.
-    intros k. rewrite H4.
-    destruct ((S i - 1 <=? k) && (k <? S i - 1 + cnt)) eqn:E1; destruct ((i - 1 <=? k) && (k <? i - 1 + S cnt)) eqn:E2; try lia.
-    + rewrite nth_upd_neq by lia. auto.
-    + assert (k = i - 1) by lia. subst k. rewrite nth_upd_eq by lia. f_equal. f_equal. lia.
-    + rewrite nth_upd_neq by lia. auto.
-Qed.
-
-Lemma emap_before : forall cnt i m e ob index p m' e' ob', i <= p < i + cnt -> i + cnt <= length m ->
-  (forall k, i <= k < i + cnt -> k <> p -> nth k m zd <> index) -> nth p m zd = index ->
-  emap_loop cnt i index m false e ob = (m', e', ob') ->
-  e' = Z.of_nat p /\ ob' = ob /\ length m' = length m /\
-  forall k, nth k m' zd = if (p <=? k) && (k <? i + cnt - 1) then (nth (S k) m zd - 1)%Z else nth k m zd.
-Proof.
-  induction cnt; intros i m e ob index p m' e' ob' Hp Hl Hne Hidx H; [lia|]. cbn [emap_loop] in H.
-  change 0%Z with zd in H. rewrite chk_in in H by lia. rewrite Nat.add_0_r in H.
-  destruct (Nat.eq_dec i p) as [->|Hip].
-  - rewrite Hidx, Z.eqb_refl in H.
-    apply emap_after in H; try lia.
-    2:{ intros k Hk. apply Hne; lia. }
-    destruct H as (-> & H2 & H3 & H4). repeat split; auto. intros k. rewrite H4.
-    replace (S p - 1) with p by lia. replace (p + S cnt - 1) with (p + cnt) by lia. reflexivity.
-  - destruct (nth i m zd =? index)%Z eqn:E; [exfalso; apply (Hne i); lia|].
-    apply (IHcnt (S i) m e ob index p) in H; try lia; auto.
-    + destruct H as (-> & H2 & H3 & H4). repeat split; auto. intros k. rewrite H4.
-      replace (S i + cnt - 1) with (i + S cnt - 1) by lia. reflexivity.
-    + intros k Hk Hkp. apply Hne; lia.
-Qed.
-
 (* the encounter map as a valid injection: the first n entries are strictly increasing indices in [0,N) *)
 Definition vmap (N : nat) (m : list Z) (n : nat) : Prop :=
   n <= length m /\ (forall a b, a < b < n -> (nth a m zd < nth b m zd)%Z) /\
   (forall a, a < n -> (0 <= nth a m zd < Z.of_nat N)%Z).
 
-(* removing a particle that is in the map: the entry is dropped, later entries are renumbered, the result
-   is again a valid injection into [0,N-1); encounter_index is the position of the entry; no access
-   outside the map *)
-Theorem emap_remove_valid : forall N m n p index ob m' e' ob',
-  vmap N m n -> p < n -> nth p m zd = index ->
-  emap_loop n 0 index m false (-1)%Z ob = (m', e', ob') ->
-  e' = Z.of_nat p /\ ob' = ob /\ vmap (N - 1) m' (n - 1) /\
-  forall k, k < n - 1 -> nth k m' zd = if p <=? k then (nth (S k) m zd - 1)%Z else nth k m zd.
+(* what the removal of particle [index] must do to the list of encounter members: drop it if present,
+   renumber the members above it *)
+Definition renum (index : Z) (l : list Z) : list Z :=
+  map (renum1 index) (filter (fun v => negb (v =? index)%Z) l).
+Definition member (index : Z) (l : list Z) : bool := existsb (fun v => (v =? index)%Z) l.
+
+Lemma firstn_S_nth : forall (l : list Z) i, i < length l -> firstn (S i) l = firstn i l ++ [nth i l zd].
+Proof. induction l; destruct i; cbn; intros; try lia; auto. f_equal. apply IHl. lia. Qed.
+Lemma renum_app : forall index l1 l2, renum index (l1 ++ l2) = renum index l1 ++ renum index l2.
+Proof. intros. unfold renum. now rewrite filter_app, map_app. Qed.
+
+(* the loop, in list form: after the loop the first j' entries are exactly [renum] of the old live entries,
+   encounter_index >= 0 iff the particle was a member, and no access left the map *)
+Lemma emap_loop_spec : forall cnt i j index m0 m e ob m' e' ob',
+  i + cnt <= length m0 -> j <= i -> length m = length m0 ->
+  (forall k, i <= k -> nth k m zd = nth k m0 zd) ->
+  firstn j m = renum index (firstn i m0) ->
+  (0 <=? e)%Z = member index (firstn i m0) ->
+  emap_loop cnt i j index m e ob = (m', e', ob') ->
+  ob' = ob /\ length m' = length m0 /\
+  firstn (length (renum index (firstn (i + cnt) m0))) m' = renum index (firstn (i + cnt) m0) /\
+  (0 <=? e')%Z = member index (firstn (i + cnt) m0) /\
+  (forall k, i + cnt <= k -> nth k m' zd = nth k m0 zd).
 Proof.
-  intros N m n p index ob m' e' ob' (V1 & V2 & V3) Hp Hidx H.
-  apply (emap_before n 0 m (-1)%Z ob index p) in H; try lia; auto.
-  2:{ intros k Hk Hkp. rewrite <- Hidx. destruct (Nat.lt_ge_cases k p).
-      - pose proof (V2 k p ltac:(lia)). lia.
-      - pose proof (V2 p k ltac:(lia)). lia. }
-  destruct H as (-> & -> & HL & HN). split; auto. split; auto.
-  assert (HK : forall k, k < n - 1 -> nth k m' zd = if p <=? k then (nth (S k) m zd - 1)%Z else nth k m zd).
-  { intros k Hk. rewrite HN. destruct ((p <=? k) && (k <? 0 + n - 1)) eqn:E2; destruct (p <=? k) eqn:E1; auto; lia. }
-  split; auto. unfold vmap. split; [lia|]. split.
-  - intros a b Hab. rewrite !HK by lia.
-    destruct (p <=? a) eqn:Ea; destruct (p <=? b) eqn:Eb; try lia.
-    + pose proof (V2 (S a) (S b) ltac:(lia)). lia.
-    + pose proof (V2 a (S b) ltac:(lia)). pose proof (V2 a p ltac:(lia)). pose proof (V2 p (S b) ltac:(lia)). lia.
-    + pose proof (V2 a b ltac:(lia)). lia.
-  - intros a Ha. rewrite HK by lia. pose proof (V3 p Hp). destruct (p <=? a) eqn:Ea.
-    + pose proof (V2 p (S a) ltac:(lia)). pose proof (V3 (S a) ltac:(lia)). lia.
-    + pose proof (V2 a p ltac:(lia)). pose proof (V3 a ltac:(lia)). lia.
+  induction cnt; intros i j index m0 m e ob m' e' ob' Hl Hj Hlen Hun Hf He H; cbn [emap_loop] in H.
+  - inversion H; subst. rewrite Nat.add_0_r. rewrite <- Hf. rewrite firstn_length.
+    repeat split; auto. f_equal. lia.
+  - change 0%Z with zd in H. rewrite (Hun i) in H by lia.
+    assert (HS : firstn (S i) m0 = firstn i m0 ++ [nth i m0 zd]) by (apply firstn_S_nth; lia).
+    rewrite chk_in in H by lia. rewrite Nat.add_0_r in H.
+    replace (i + S cnt) with (S i + cnt) by lia.
+    destruct (nth i m0 zd =? index)%Z eqn:E.
+    + assert (A1 : forall k, S i <= k -> nth k m zd = nth k m0 zd) by (intros; apply Hun; lia).
+      assert (A2 : firstn j m = renum index (firstn (S i) m0)).
+      { rewrite HS, renum_app. unfold renum at 2. cbn. rewrite E. cbn. now rewrite app_nil_r. }
+      assert (A3 : (0 <=? Z.of_nat i)%Z = member index (firstn (S i) m0)).
+      { rewrite HS. unfold member. rewrite existsb_app. cbn. rewrite E. rewrite orb_true_r. lia. }
+      apply (IHcnt (S i) j index m0 m _ _ _ _ _ ltac:(lia) ltac:(lia) Hlen A1 A2 A3) in H. exact H.
+    + rewrite chk_in in H by lia. rewrite Nat.add_0_r in H.
+      set (m1 := upd m j (renum1 index (nth i m0 zd))) in *.
+      assert (L1 : length m1 = length m0) by (unfold m1; now rewrite upd_length).
+      assert (A1 : forall k, S i <= k -> nth k m1 zd = nth k m0 zd).
+      { intros k Hk. unfold m1. rewrite nth_upd_neq by lia. apply Hun. lia. }
+      assert (A2 : firstn (S j) m1 = renum index (firstn (S i) m0)).
+      { unfold m1. rewrite firstn_S_upd by lia. rewrite Hf, HS, renum_app. f_equal.
+        unfold renum. cbn. rewrite E. reflexivity. }
+      assert (A3 : (0 <=? e)%Z = member index (firstn (S i) m0)).
+      { rewrite HS. unfold member in *. rewrite existsb_app. cbn. rewrite E. cbn. now rewrite orb_false_r. }
+      apply (IHcnt (S i) (S j) index m0 m1 _ _ _ _ _ ltac:(lia) ltac:(lia) L1 A1 A2 A3) in H. exact H.
+Qed.
+
+(* strictly increasing lists of indices below N *)
+Definition vlist (N : nat) (l : list Z) : Prop :=
+  StronglySorted Z.lt l /\ Forall (fun v => (0 <= v < Z.of_nat N)%Z) l.
+
+Lemma renum1_mono : forall index x y, x <> index -> y <> index -> (x < y)%Z -> (renum1 index x < renum1 index y)%Z.
+Proof. intros. unfold renum1. destruct (index <? x)%Z eqn:E1; destruct (index <? y)%Z eqn:E2; lia. Qed.
+
+Lemma renum_vlist : forall N index l, (0 <= index < Z.of_nat N)%Z -> vlist N l -> vlist (N - 1) (renum index l).
+Proof.
+  intros N index l Hi [HS HF]. induction HS as [|x l HS IH HX]; [split; constructor|].
+  inversion HF as [|? ? Hx HF']; subst. destruct (IH HF') as [IS IF].
+  unfold renum in *. cbn. destruct (x =? index)%Z eqn:E; cbn; [split; auto|].
+  split.
+  - constructor; auto. rewrite Forall_forall in *. intros y Hy.
+    apply in_map_iff in Hy. destruct Hy as [v [<- Hv]]. apply filter_In in Hv. destruct Hv as [Hv1 Hv2].
+    apply renum1_mono; try lia. apply HX; auto.
+  - constructor; auto. unfold renum1. destruct (index <? x)%Z eqn:E2; lia.
+Qed.
+
+Lemma renum_length : forall index l, StronglySorted Z.lt l ->
+  length (renum index l) = length l - (if member index l then 1 else 0).
+Proof.
+  intros index l HS. unfold renum, member. rewrite map_length.
+  induction HS as [|x l HS IH HX]; cbn; auto.
+  destruct (x =? index)%Z eqn:E; cbn.
+  - assert (F : filter (fun v => negb (v =? index)%Z) l = l).
+    { clear IH. induction l; cbn; auto. inversion HX; subst. inversion HS; subst.
+      replace (a =? index)%Z with false by lia. cbn. f_equal. apply IHl; auto. }
+    rewrite F. lia.
+  - rewrite IH. destruct (existsb (fun v => (v =? index)%Z) l) eqn:EX; try lia.
+    destruct l; [discriminate|cbn; lia].
+Qed.
+
+(* bridges between the nth form and the list form *)
+Lemma vmap_vlist : forall N m n, vmap N m n -> vlist N (firstn n m).
+Proof.
+  intros N m n (V1 & V2 & V3).
+  assert (G : forall l, (forall a b, a < b < length l -> (nth a l zd < nth b l zd)%Z) -> StronglySorted Z.lt l).
+  { induction l; intros Hl; constructor.
+    - apply IHl. intros a0 b Hab. apply (Hl (S a0) (S b)). cbn. lia.
+    - apply Forall_forall. intros y Hy. apply (In_nth_lt _ _ _ zd) in Hy. destruct Hy as [k [Hk <-]].
+      apply (Hl 0 (S k)). cbn. lia. }
+  split.
+  - apply G. intros a b Hab. rewrite firstn_length in Hab. rewrite !nth_firstn_lt by lia. apply V2. lia.
+  - apply Forall_forall. intros y Hy. apply (In_nth_lt _ _ _ zd) in Hy. destruct Hy as [k [Hk <-]].
+    rewrite firstn_length in Hk. rewrite nth_firstn_lt by lia. apply V3. lia.
+Qed.
+Lemma ssorted_nth : forall l, StronglySorted Z.lt l -> forall a b, a < b < length l -> (nth a l zd < nth b l zd)%Z.
+Proof.
+  induction 1; intros a0 b Hab; cbn in Hab; [lia|].
+  destruct a0, b; try lia; cbn.
+  - rewrite Forall_forall in H0. apply H0. apply nth_In. lia.
+  - apply IHStronglySorted. lia.
+Qed.
+Lemma vlist_vmap : forall N m n, n <= length m -> vlist N (firstn n m) -> vmap N m n.
+Proof.
+  intros N m n Hn [HS HF]. split; auto. split.
+  - intros a b Hab. rewrite <- (nth_firstn_lt _ m n a) by lia. rewrite <- (nth_firstn_lt _ m n b) by lia.
+    apply ssorted_nth; auto. rewrite firstn_length. lia.
+  - intros a Ha. rewrite <- (nth_firstn_lt _ m n a) by lia. rewrite Forall_forall in HF. apply HF.
+    apply nth_In. rewrite firstn_length. lia.
+Qed.
+
+(* removal of particle [index] (a member of the encounter or not): the live part of the map becomes exactly
+   [renum] of the old one; it is again a strictly increasing injection, now into [0,N-1); its length drops by
+   one iff the particle was a member, and then (and only then) encounter_index >= 0; no access outside the map *)
+Theorem emap_remove_valid : forall N m n index ob m' e' ob',
+  vmap N m n -> (0 <= index < Z.of_nat N)%Z ->
+  emap_loop n 0 0 index m (-1)%Z ob = (m', e', ob') ->
+  let live := firstn n m in
+  let n' := n - (if member index live then 1 else 0) in
+  ob' = ob /\ length m' = length m /\ firstn n' m' = renum index live /\ vmap (N - 1) m' n' /\
+  (0 <=? e')%Z = member index live.
+Proof.
+  intros N m n index ob m' e' ob' V Hi H. pose proof V as (V1 & _).
+  apply (emap_loop_spec n 0 0 index m m) in H; auto; try lia.
+  destruct H as (-> & HL & HF & HE & _). cbn [Nat.add] in *.
+  pose proof (vmap_vlist _ _ _ V) as VL. pose proof (renum_length index _ (proj1 VL)) as RL.
+  rewrite firstn_length in RL. replace (Nat.min n (length m)) with n in RL by lia.
+  cbn zeta. rewrite RL in HF. split; [auto|]. split; [auto|]. split; [auto|]. split; [|auto].
+  apply vlist_vmap; [lia|]. rewrite HF. apply renum_vlist; auto.
 Qed.
 
 (* adding: the new particle (index N) is appended to the map; the map stays a valid injection into [0,N+1) *)
@@ -153,16 +217,14 @@ Proof.
 Qed.
 
 (* MERCURIUS removal never leaves dcrit or the encounter map (no hypothesis on N_allocated_dcrit) *)
-Lemma emap_loop_safe : forall cnt i index m after e ob m' e' ob', (after = true -> 1 <= i) -> i + cnt <= length m ->
-  emap_loop cnt i index m after e ob = (m', e', ob') -> ob' = ob /\ length m' = length m.
+Lemma emap_loop_safe : forall cnt i j index m e ob m' e' ob', j <= i -> i + cnt <= length m ->
+  emap_loop cnt i j index m e ob = (m', e', ob') -> ob' = ob /\ length m' = length m.
 Proof.
-  induction cnt; intros i index m after e ob m' e' ob' Ha Hl H; cbn [emap_loop] in H.
+  induction cnt; intros i j index m e ob m' e' ob' Hj Hl H; cbn [emap_loop] in H.
   - inversion H; auto.
-  - destruct after.
-    + specialize (Ha eq_refl). rewrite upd_length in H. rewrite !chk_in in H by lia.
-      destruct (_ =? index)%Z; apply IHcnt in H; try (rewrite upd_length); try lia; rewrite upd_length in H; destruct H; split; lia.
-    + rewrite chk_in in H by lia.
-      destruct (_ =? index)%Z; apply IHcnt in H; try lia; destruct H; split; lia.
+  - rewrite chk_in in H by lia. destruct (_ =? index)%Z.
+    + apply IHcnt in H; lia.
+    + rewrite chk_in in H by lia. apply IHcnt in H; [rewrite upd_length in H; lia|lia|rewrite upd_length; lia].
 Qed.
 
 Theorem merc_remove_safe : forall s h z keep s' h' r, kind h = IMerc -> eN h <= length (emap h) ->
@@ -178,12 +240,12 @@ Proof.
   - destruct (dshift (Nat.min (sN s - 1) (nd - 1)) 0 (Z.to_nat z) (dcrit h) (hoob h)) as [d ob] eqn:ED.
     apply dshift_safe in ED; [|unfold nd in *; lia]. destruct ED as [-> _].
     destruct (hmode h =? 1).
-    + destruct (emap_loop (eN h) 0 z (emap h) false (-1)%Z (hoob h)) as [[m e] ob'] eqn:EM.
-      apply emap_loop_safe in EM; [|discriminate|lia]. destruct EM as [-> _]. inversion H; subst. reflexivity.
+    + destruct (emap_loop (eN h) 0 0 z (emap h) (-1)%Z (hoob h)) as [[m e] ob'] eqn:EM.
+      apply emap_loop_safe in EM; try lia. destruct EM as [-> _]. inversion H; subst. reflexivity.
     + inversion H; subst. reflexivity.
   - destruct (hmode h =? 1).
-    + destruct (emap_loop (eN h) 0 z (emap h) false (-1)%Z (hoob h)) as [[m e] ob'] eqn:EM.
-      apply emap_loop_safe in EM; [|discriminate|lia]. destruct EM as [-> _]. inversion H; subst. reflexivity.
+    + destruct (emap_loop (eN h) 0 0 z (emap h) (-1)%Z (hoob h)) as [[m e] ob'] eqn:EM.
+      apply emap_loop_safe in EM; try lia. destruct EM as [-> _]. inversion H; subst. reflexivity.
     + inversion H; subst. reflexivity.
 Qed.
 
@@ -467,13 +529,17 @@ Proof.
   - destruct (shift _ _ _ _). reflexivity.
 Qed.
 
-(* removing (collision) a particle that is in the encounter map during the encounter step: the arrays still
-   cover N-1, the map is again a valid injection into [0,N-1), no access outside the arrays *)
-Theorem hremove_ok : forall s h z keep s' h' r p, active h = true -> hyb_ok s h ->
-  p < eN h -> nth p (emap h) zd = z -> hremove s h z keep = (s', h', r) -> r <> RFail ->
-  hyb_ok s' h' /\ hoob h' = hoob h /\ sN s' = sN s - 1 /\ eN h' = eN h - 1.
+(* removing a particle during the encounter step, whether it is a member of the encounter or not: the arrays
+   still cover N-1, the live part of the map becomes [renum] of the old one (member dropped, members above
+   the index shifted by one) and is again a valid injection into [0,N-1); encounter_N drops by one iff the
+   particle was a member; no access outside the arrays *)
+Theorem hremove_ok : forall s h z keep s' h' r, active h = true -> hyb_ok s h ->
+  hremove s h z keep = (s', h', r) -> r <> RFail ->
+  let live := firstn (eN h) (emap h) in
+  hyb_ok s' h' /\ hoob h' = hoob h /\ sN s' = sN s - 1 /\
+  eN h' = eN h - (if member z live then 1 else 0) /\ firstn (eN h') (emap h') = renum z live.
 Proof.
-  intros s h z keep s' h' r p Ha (V & HN & HK) Hp Hz H Hr. unfold hremove in H.
+  intros s h z keep s' h' r Ha (V & HN & HK) H Hr. cbn zeta. unfold hremove in H.
   destruct ((Z.of_nat (sN s) <=? z) || (z <? 0))%Z eqn:E1; [inversion H; subst; contradiction|].
   destruct (negb (sNvar s =? 0)) eqn:E2; [inversion H; subst; contradiction|].
   assert (HH : hybrid_kind h = true) by (unfold active, hybrid_kind in *; destruct (kind h); auto; discriminate).
@@ -481,31 +547,31 @@ Proof.
   destruct (tree s) eqn:E3; [inversion H; subst; contradiction|].
   pose proof (remove_idx_keep_N s z E1 E2 E3) as HNs.
   destruct (remove_idx s z true) as [s1 r1]. cbn [fst] in HNs.
-  pose proof V as (V1 & V2 & V3).
-  destruct (emap_loop (eN h) 0 z (emap h) false (-1)%Z (hoob h)) as [[m e] ob'] eqn:EL.
-  pose proof EL as EL0. pose proof EL as EL2. apply emap_loop_safe in EL2; [|discriminate|lia]. destruct EL2 as [-> LM].
-  eapply emap_remove_valid in EL; eauto. destruct EL as (-> & _ & VM & _).
+  pose proof V as (V1 & _).
+  destruct (emap_loop (eN h) 0 0 z (emap h) (-1)%Z (hoob h)) as [[m e] ob'] eqn:EL.
+  pose proof EL as EL0.
+  apply (emap_remove_valid (sN s)) in EL; auto; try lia. cbn zeta in EL.
+  destruct EL as (-> & LM & HF & VM & HE).
   unfold active in Ha. destruct (kind h) eqn:EK; [discriminate| |].
-  -     set (nd := length (dcrit h)) in *.
+  - set (nd := length (dcrit h)) in *.
     assert (exists d, (if (0 <? nd) && (Z.to_nat z <? nd)
              then dshift (Nat.min (sN s - 1) (nd - 1)) 0 (Z.to_nat z) (dcrit h) (hoob h) else (dcrit h, hoob h)) = (d, hoob h)) as [d ED].
     { destruct ((0 <? nd) && (Z.to_nat z <? nd)) eqn:E; [|eauto].
       destruct (dshift _ _ _ _ _) as [d ob] eqn:EDS. apply dshift_safe in EDS; [|unfold nd in *; lia].
       destruct EDS as [-> _]. eauto. }
-    rewrite ED in H.
-    rewrite Ha in H.
-    rewrite EL0 in H. inversion H; subst; clear H. cbn [hoob emap eN ks kind].
-    split; [|repeat split; auto].
-    unfold hyb_ok. cbn [emap eN ks kind]. rewrite HNs. split; [exact VM|split; [lia|intros; congruence]].
-  - destruct ((hmode h =? 1) || (hmode h =? 3)) eqn:EM; [|lia].
+    rewrite ED in H. rewrite Ha in H. rewrite EL0 in H. inversion H; subst; clear H. cbn [hoob emap eN ks kind].
+    rewrite HE. destruct (member z (firstn (eN h) (emap h))) eqn:EM; rewrite ?Nat.sub_0_r in *;
+      (split; [|repeat split; auto; lia]);
+      unfold hyb_ok; cbn [emap eN ks kind]; rewrite HNs; (split; [exact VM|split; [lia|intros; congruence]]).
+  - destruct ((hmode h =? 1) || (hmode h =? 3)) eqn:EM3; [|lia].
     specialize (HK eq_refl). cbv zeta in H. rewrite Ha in H. cbn [andb] in H.
-    replace (0 <=? Z.of_nat p)%Z with true in H by lia.
     destruct (ks_rows (sN s - 1) 0 (sN s - 1) (sN s) (Z.to_nat z) (ks h) (hoob h)) as [k ob''] eqn:EKS.
     assert (HS : sN s = S (sN s - 1)) by lia. rewrite HS in EKS at 3.
     apply ks_remove_exact in EKS; [|rewrite <- HS; nia]. destruct EKS as (-> & LK & _).
     inversion H; subst; clear H. cbn [hoob emap eN ks kind].
-    split; [|repeat split; auto].
-    unfold hyb_ok. cbn [emap eN ks kind]. rewrite HNs. split; [exact VM|split; [lia|intros; lia]].
+    rewrite HE. destruct (member z (firstn (eN h) (emap h))) eqn:EM; rewrite ?Nat.sub_0_r in *;
+      (split; [|repeat split; auto; lia]);
+      unfold hyb_ok; cbn [emap eN ks kind]; rewrite HNs; (split; [exact VM|split; [lia|intros; lia]]).
 Qed.
 
 (* REB_TRACE_MODE_FULL (pericentre step): the encounter map is the flag array of the pre-timestep check; a
